@@ -41,4 +41,14 @@ MUTANTS = [
     ("c13-seqno-check-removed", "C13", C, "        seqno = res_command & 0x7F\n        if seqno == self._ackseq + 1:\n            self._ackseq = seqno\n        else:", "        seqno = res_command & 0x7F\n        if True:\n            self._ackseq = seqno\n        else:"),
     ("c13-crc-only-low-byte", "C13", C, "if self._server_crc != self._crc.final():", "if self._server_crc & 0xFF != self._crc.final() & 0xFF:"),
     ("c13-no-end-frame", "C13", C, "if self._done and not self._error:", "if False and self._done and not self._error:"),
+    # ---- C02
+    ("c02-segment-slice", "C02", S, "del self._buffer[:7]", "del self._buffer[:8]"),
+    ("c02-precedence-swapped", "C02", "canopen/node/local.py", "            if obj.value is not None:\n                return obj.encode_raw(obj.value)\n            # Try default value\n            if obj.default is not None:\n                return obj.encode_raw(obj.default)", "            if obj.default is not None:\n                return obj.encode_raw(obj.default)\n            if obj.value is not None:\n                return obj.encode_raw(obj.value)"),
+    ("c02-upload-n-bits", "C02", S, "res_command |= (4 - size) << 2", "res_command |= (3 - size) << 2 if size < 4 else 0"),
+    ("c02-last-flag-exact-multiple", "C02", S, "        if not self._buffer:\n            # Nothing left in buffer", "        if not self._buffer and size < 7:\n            # Nothing left in buffer"),
+    ("c02-download-toggle-not-reset", "C02", S, "            self._buffer = bytearray()\n            self._toggle = 0\n\n        SDO_STRUCT.pack_into(response, 0, res_command, index, subindex)", "            self._buffer = bytearray()\n\n        SDO_STRUCT.pack_into(response, 0, res_command, index, subindex)"),
+    ("c02-download-last-byte", "C02", S, "last_byte = 8 - ((command >> 1) & 0x7)", "last_byte = 8 - ((command >> 1) & 0x3)"),
+    ("c02-callback-after-store", "C02", "canopen/node/local.py", "        for callback in self._write_callbacks:\n            callback(index=index, subindex=subindex, od=obj, data=data)", "        for callback in self._write_callbacks[:1]:\n            callback(index=index, subindex=subindex, od=obj, data=data)"),
+    ("c02-exp-nosize-length", "C02", S, "            else:\n                size = 4\n            self._node.set_data", "            else:\n                size = 3\n            self._node.set_data"),
+    ("c02-upload-mux-echo", "C02", S, "        SDO_STRUCT.pack_into(response, 0, res_command, index, subindex)\n        self.send_response(response)\n\n    def segmented_upload", "        SDO_STRUCT.pack_into(response, 0, res_command, index, 0)\n        self.send_response(response)\n\n    def segmented_upload"),
 ]
